@@ -64,10 +64,18 @@ def restart_helper(K, files):
     m = importlib.import_module(MOD)
     K.functions.append(f"{MOD}:restart_simulation")
     names = [f"sopht_{i:04d}.h5" for i in files] + [f"rod_{i:04d}.h5" for i in files] + ["notes.txt", "sopht_0001_eulerian.xmf"]
-    for variant in ("times_agree", "times_differ"):
+    variants = [("times_agree", None), ("times_differ", None)]
+    if native and "delta" not in K.model:
+        # bounded native runs: ANY disagreement must be refused, also a tiny one late in a run
+        variants = [("times_agree", None), ("times_differ", "one_ulp"), ("times_differ", 1e-3), ("times_differ", None)]
+    for variant, how in variants:
         log = []
         t = K.real("flow_time")
         delta = K.real("delta", pos=True)
+        if how is not None:
+            import math
+            t = 150.0 + abs(t)
+            delta = math.ulp(t) if how == "one_ulp" else how
         rod_t = t if variant == "times_agree" else t + delta
         calls = []
 
